@@ -19,7 +19,8 @@ RULE = ("histories of 8..30 steps on a fresh ASan bus (LeakSanitizer on) with ra
         "calls to the bus driver, each with 0..max+2 freshly created descriptors (temp files with a set offset, pipe "
         "ends, sockets) and a UNIX_FDS header absent / smaller / equal / larger than attached; descriptors on the first "
         "byte, on a later chunk, or first part written and the sender stalls (later resumed, abandoned, or left to the "
-        "pending-fd timeout); destinations negotiated / not negotiated / missing / policy-denied / not reading their "
+        "pending-fd timeout; or a surplus is created and the sender keeps sending well-formed one-descriptor messages every timeout/3 - "
+        "it must still be dropped within a bound counted from the surplus); destinations negotiated / not negotiated / missing / policy-denied / not reading their "
         "socket (messages queue inside the bus); oversized and corrupted-after-the-descriptors messages; sender or "
         "recipient closing mid-way. Oracle: vf/models/fdflow.py (per-connection FIFO of unclaimed descriptors) for the "
         "outcome; every received descriptor is compared by fstat device/inode, access mode, file offset and content, in "
@@ -437,6 +438,7 @@ class History(object):
                           " malformed=%s" % spec.malformed if spec.malformed else "",
                           " bytes=%d" % len(data) if len(data) > self.max_size else ""))
             candidates = list(ms.q) + list(spec.fds)
+            maybe_unread = self.timeout_ms is not None and q_before > 0
             ok = self.write(S, pcs)
             pre = None
             for i, (d, f) in enumerate(pcs):
@@ -446,6 +448,7 @@ class History(object):
                      and not spec.malformed and len(data) <= self.max_size and (ms.negotiated or not spec.fds))
         else:
             serial, data, rest, pre, legal, candidates = partial_resume
+            maybe_unread = False
             self.step("resume from=%s serial=%d remaining-pieces=%r" % (self.name_of(S), serial, [(len(d), len(f)) for d, f in rest]))
             ok = self.write(S, rest)
         size = len(data)
@@ -548,6 +551,17 @@ class History(object):
                       % (S.unique.decode(), self.timeout_ms))
             self.part.count("pending-timeouts-enforced")
             self.part.count("pending-timeouts-during-settle")
+            if maybe_unread:
+                # the descriptors were pending before this message was written: the bus may have dropped the connection
+                # without ever reading it.  What did arrive is still compared; nothing is demanded.
+                for u, recs in got.items():
+                    if out.kind in ("deliver", "broadcast") and u in [c.unique for c in out.recipients]:
+                        self.compare_fds(recs[0], out.fds, kcls, u.decode())
+                for mcn in out.recipients:
+                    mcn.inflight = [x for x in mcn.inflight if not (x[0] == S.unique and x[1] == serial)] + \
+                                   [x[:4] + (True,) for x in mcn.inflight if x[0] == S.unique and x[1] == serial]
+                self.check_held(cls)
+                return out.cls
         elif observed_disc:
             if legal:
                 self.violation("sender-dropped:%s" % kcls, "the bus disconnected %s although its message was well-formed, "
@@ -734,6 +748,61 @@ class History(object):
         ms = self.mc(S)
         if ms.q and ms.partial is None:
             self.await_timeout(S, "surplus")
+
+    def op_surplus_keepalive(self, S):
+        """A surplus descriptor is created at t0; afterwards the connection keeps sending complete, well-formed messages
+        that announce and carry one descriptor each, at intervals well below pending_fd_timeout.  There are unclaimed
+        descriptors at the bus all the time, so the connection has to be dropped (or the descriptors released) within the
+        timeout counted from t0 - traffic must not postpone it.  Bounded progress: t0 + 4 * timeout + 10 s."""
+        rng = self.rng
+        ms = self.mc(S)
+        T = self.timeout_ms / 1000.0
+        a = rng.randint(2, self.M)
+        h = rng.randint(1, a - 1)
+
+        def dest():
+            ok = [c for c in self.usable() if c is not S and self.mc(c).negotiated and not self.model.denied(self.mc(c), 1)
+                  and not self.mc(c).q]
+            if ok and rng.random() < 0.8:
+                return rng.choice(ok).unique, "negotiated"
+            return NAME_MISSING, "missing"
+
+        spec = Spec(kind="call-noreply", flags=1, h=h, relation="less")
+        spec.dest, spec.dest_class = dest()
+        spec.fds = self.new_fds(a)
+        t0 = time.time()
+        self.transmit(S, spec)
+        bound = 4 * T + 10.0
+        n = 0
+        self.part.count("surplus-keepalive-histories")
+        while S.unique in self.clients:
+            if time.time() - t0 > bound:
+                raise NotEnforced("pending-timeout-not-enforced:surplus-with-traffic",
+                                  "a connection has had unclaimed descriptors at the bus for %.1f s (pending_fd_timeout=%d ms) while "
+                                  "it kept sending %d well-formed one-descriptor messages every %d ms; it is still connected and "
+                                  "the descriptors are still open in the bus" % (time.time() - t0, self.timeout_ms, n, int(T * 333)))
+            time.sleep(T / 3.0)
+            if S.unique not in self.clients:
+                break
+            if not ms.q:
+                break
+            tab = self.daemon.open_fds() or {}
+            if not any(p.link in tab.values() for p in ms.q):
+                # released without a disconnect: equally fine
+                self.step("  the bus no longer holds the unclaimed descriptors of %s" % self.name_of(S))
+                self.part.count("surplus-released-without-disconnect")
+                ms.q = []
+                break
+            spec = Spec(kind="call-noreply", flags=1, h=1, relation="eq")
+            spec.dest, spec.dest_class = dest()
+            spec.fds = self.new_fds(1)
+            self.transmit(S, spec)
+            n += 1
+        dt = time.time() - t0
+        self.part.count("surplus-keepalive-enforced")
+        self.part.count("surplus-keepalive-messages", n)
+        self.part.sig("surplus-keepalive", min(n, 4), a - h)
+        self.step("  surplus episode over after %.2f s and %d follow-up messages" % (dt, n))
 
     def await_timeout(self, S, why):
         t0 = time.time()
@@ -1055,6 +1124,9 @@ class History(object):
             neg = [c for c in us if self.mc(c).negotiated]
             S = rng.choice(neg) if neg and rng.random() < 0.8 else rng.choice(us)
             r = rng.random()
+            if self.timeout_ms is not None and self.M >= 2 and self.mc(S).negotiated and not self.mc(S).q and rng.random() < 0.07:
+                self.op_surplus_keepalive(S)
+                continue
             if r < 0.58:
                 self.op_send(S)
             elif r < 0.67:
@@ -1219,7 +1291,8 @@ def run(tier, seed, replay=None, scale=1.0):
                   "outcome:refuse:recipient-not-negotiated", "outcome:disconnect:too-many-fds", "outcome:disconnect:missing-fds",
                   "outcome:disconnect:malformed", "outcome:disconnect:oversized", "pending-timeouts-enforced",
                   "recipients-closed-while-stalled", "recipients-resumed", "queued-descriptors-seen-inside-bus",
-                  "outcome:recipient-closing", "outcome:truncated-then-close", "refusal-error-seen"):
+                  "outcome:recipient-closing", "outcome:truncated-then-close", "refusal-error-seen", "surplus-keepalive-enforced",
+                  "surplus-keepalive-messages"):
             r.require(k, 1)
         r.require("descriptors-compared", 200)
         r.require("fd-table-checks-with-descriptors-held", 5)
